@@ -29,6 +29,31 @@ Proof.
     + intros (r & Hr). injection Hr as -> ->. split; [done | by exists r].
 Qed.
 
+(* small propositional goals about list membership (set_solver is far too slow on [∉ _ :: _]);
+   clear induction hypotheses before using it *)
+Ltac lsimp := rewrite ?elem_of_app, ?elem_of_cons, ?not_elem_of_cons, ?not_elem_of_app, ?elem_of_nil in *.
+Ltac lsolve := lsimp; naive_solver.
+
+Lemma fresh_cons_iff (a x : str) (l seen : list str) :
+  a ∉ seen → (x = a ∨ (x ∈ l ∧ x ∉ a :: seen)) ↔ (x ∈ a :: l ∧ x ∉ seen).
+Proof.
+  intros Ha. rewrite !elem_of_cons. split.
+  - intros [->|[Hl Hn]]; [split; [by left | done]|]. split; [by right|]. intros Hs. apply Hn. by right.
+  - intros [[->|Hl] Hn]; [by left|]. destruct (decide (x = a)) as [->|Hne]; [by left | right].
+    split; [done|]. by intros [?|?].
+Qed.
+
+Lemma swap_last_iff (x y z : str) (mid seen : list str) :
+  x ∈ seen →
+  (z ∈ y :: mid ∧ z ∉ seen ↔ z ∈ x :: mid ++ [y] ∧ z ∉ seen)
+  ∧ (z ∈ seen ∨ z ∈ y :: mid ↔ z ∈ seen ∨ z ∈ x :: mid ++ [y]).
+Proof.
+  intros Hx. rewrite !elem_of_cons, elem_of_app, elem_of_list_singleton.
+  split; (split; [tauto|]).
+  - intros [[->|?] ?]; [done | tauto].
+  - intros [?|[->|?]]; tauto.
+Qed.
+
 Lemma ends_with_star_snoc q : ends_with_star (q ++ [c_star]) = true.
 Proof. unfold ends_with_star. by rewrite last_snoc. Qed.
 
@@ -143,7 +168,7 @@ Proof.
   assert (Hnil : ∀ fuel pre seen, ∃ r seen', uniq_loop fuel (pre ++ []) (length pre) seen = Done (pre ++ r, seen')
     ∧ NoDup r ∧ (∀ x, x ∈ r ↔ x ∈ [] ∧ x ∉ seen) ∧ (∀ x, x ∈ seen' ↔ x ∈ seen ∨ x ∈ @nil str)).
   { intros f pre seen. exists [], seen. rewrite uniq_loop_unfold, app_nil_r.
-    rewrite (proj2 (Nat.ltb_ge _ _)) by lia. cbn. split; [done|]. split; [constructor|]. split; intros x; set_solver. }
+    rewrite (proj2 (Nat.ltb_ge _ _)) by lia. cbn. split; [done|]. split; [constructor|]. split; intros x; lsolve. }
   induction fuel as [|fuel IH]; intros pre rest seen Hlen.
   - destruct rest; [apply Hnil | cbn in Hlen; lia].
   - destruct rest as [|x rest']; [apply Hnil|].
@@ -159,8 +184,8 @@ Proof.
         rewrite Hp, list_lookup_middle by done.
         rewrite list_insert_id by (by apply list_lookup_middle). rewrite take_app.
         destruct (IH pre [] seen) as (r & seen' & Heq & Hnd & Hr & Hs); [cbn; lia|].
-        rewrite app_nil_r in Heq. exists r, seen'. split; [done|]. split; [done|].
-        split; intros z; [rewrite Hr | rewrite Hs]; set_solver.
+        clear IH Hnil. rewrite app_nil_r in Heq. exists r, seen'. split; [done|]. split; [done|].
+        split; intros z; [rewrite Hr | rewrite Hs]; lsolve.
       * (* the last tag y is moved to idx and examined next *)
         assert (Hp : pred (length (pre ++ x :: mid ++ [y])) = length (pre ++ x :: mid)).
         { rewrite !app_length. cbn. rewrite app_length. cbn. lia. }
@@ -174,59 +199,57 @@ Proof.
         rewrite Ht2, take_app_alt by (rewrite !app_length; done).
         destruct (IH pre (y :: mid) seen) as (r & seen' & Heq & Hnd & Hr & Hs).
         { cbn in Hlen. rewrite app_length in Hlen. cbn in *. lia. }
-        exists r, seen'. split; [done|]. split; [done|].
-        split; intros z; [rewrite Hr | rewrite Hs]; set_solver.
+        clear IH Hnil. exists r, seen'. split; [done|]. split; [done|].
+        split; intros z; [rewrite Hr | rewrite Hs]; by apply swap_last_iff.
     + apply mem_str_false in Hm.
       assert (Ht1 : pre ++ x :: rest' = (pre ++ [x]) ++ rest') by (by rewrite <- app_assoc).
       assert (Hl : S (length pre) = length (pre ++ [x])) by (rewrite app_length; cbn; lia).
       rewrite Ht1, Hl.
       destruct (IH (pre ++ [x]) rest' (x :: seen)) as (r & seen' & Heq & Hnd & Hr & Hs); [cbn in Hlen; lia|].
-      exists (x :: r), seen'. split; [rewrite Heq, <- app_assoc; reflexivity|].
-      split; [apply NoDup_cons_2; [rewrite Hr; set_solver | done]|].
-      split; intros z; [rewrite elem_of_cons, Hr | rewrite Hs, !elem_of_cons; tauto].
-      split.
-      * intros [->|[Hz Hn]]; [split; [left|]; done|]. apply not_elem_of_cons in Hn as [? ?]. split; [by right | done].
-      * intros [Hz Hn]. apply elem_of_cons in Hz as [->|Hz]; [by left|].
-        destruct (decide (z = x)) as [->|Hne]; [by left | right]. split; [done|]. by apply not_elem_of_cons.
+      clear IH Hnil. exists (x :: r), seen'. split; [rewrite Heq, <- app_assoc; reflexivity|].
+      split; [apply NoDup_cons_2; [rewrite Hr; lsolve | done]|].
+      split; intros z; [rewrite elem_of_cons, Hr; by apply fresh_cons_iff | rewrite Hs, !elem_of_cons; tauto].
 Qed.
 
 Lemma append_unseen_spec seen t2 : ∀ t1,
-  append_unseen seen t1 t2 = t1 ++ List.filter (λ t, negb (mem_str t seen)) t2.
+  append_unseen seen t1 t2 = t1 ++ filter (λ t, t ∉ seen) t2.
 Proof.
-  induction t2 as [|t t2 IH]; intros t1; cbn; [by rewrite app_nil_r|].
-  destruct (mem_str t seen); cbn; rewrite IH; [done | by rewrite <- app_assoc].
+  induction t2 as [|t t2 IH]; intros t1; cbn [append_unseen]; [by rewrite filter_nil, app_nil_r|].
+  destruct (mem_str t seen) eqn:Hm.
+  - apply mem_str_spec in Hm. rewrite filter_cons_False by (by intros ?). apply IH.
+  - apply mem_str_false in Hm. rewrite filter_cons_True by done. rewrite IH, <- app_assoc. done.
 Qed.
 
 Lemma first_occ_spec l : ∀ seen, NoDup (first_occ seen l) ∧ ∀ x, x ∈ first_occ seen l ↔ x ∈ l ∧ x ∉ seen.
 Proof.
   induction l as [|a l IH]; intros seen; cbn.
-  - split; [constructor | set_solver].
+  - split; [apply NoDup_nil_2 | intros x; lsolve].
   - destruct (mem_str a seen) eqn:Hm.
-    + apply mem_str_spec in Hm. destruct (IH seen) as [Hnd Hx]. split; [done|]. intros x. rewrite Hx. set_solver.
-    + apply mem_str_false in Hm. destruct (IH (a :: seen)) as [Hnd Hx]. split.
-      * apply NoDup_cons_2; [rewrite Hx; set_solver | done].
-      * intros x. rewrite elem_of_cons, Hx. set_solver.
+    + apply mem_str_spec in Hm. destruct (IH seen) as [Hnd Hx]. clear IH. split; [done|].
+      intros x. rewrite Hx, elem_of_cons. split; [tauto|]. intros [[->|?] ?]; [done | tauto].
+    + apply mem_str_false in Hm. destruct (IH (a :: seen)) as [Hnd Hx]. clear IH. split.
+      * apply NoDup_cons_2; [|done]. rewrite Hx, not_elem_of_cons. tauto.
+      * intros x. rewrite elem_of_cons, Hx. by apply fresh_cons_iff.
 Qed.
 
 (* uniqueTagsWithSeen never panics and never runs out of fuel; its result is, up to order, the
    first occurrences of the tags of t1 that were not seen, followed by the tags of t2 that are
-   neither seen nor in t1; it has no duplicates when t2 has none *)
+   neither in t1 nor seen; it has no duplicates when t2 has none *)
 Lemma unique_tags_with_seen_spec seen t1 t2 :
   ∃ r, unique_tags_with_seen seen t1 t2 = Done r
-    ∧ r ≡ₚ first_occ seen t1 ++ List.filter (λ t, negb (mem_str t (t1 ++ seen))) t2
+    ∧ r ≡ₚ first_occ seen t1 ++ filter (λ t, t ∉ t1 ++ seen) t2
     ∧ (NoDup t2 → NoDup r).
 Proof.
   unfold unique_tags_with_seen.
   destruct (uniq_loop_spec (length t1) [] t1 seen) as (r & seen' & Heq & Hnd & Hr & Hs); [done|].
   cbn in Heq. rewrite Heq. cbn. rewrite append_unseen_spec. eexists; split; [done|].
-  assert (Hf : List.filter (λ t, negb (mem_str t seen')) t2 = List.filter (λ t, negb (mem_str t (t1 ++ seen))) t2).
-  { apply filter_ext. intros t. f_equal. apply eq_true_iff_eq. rewrite !mem_str_spec, Hs. set_solver. }
+  assert (Hf : filter (λ t, t ∉ seen') t2 = filter (λ t, t ∉ t1 ++ seen) t2).
+  { apply list_filter_iff. intros t. rewrite Hs, elem_of_app. tauto. }
   rewrite Hf. destruct (first_occ_spec t1 seen) as [Hnd' Hr']. split.
   - apply Permutation_app_tail, NoDup_Permutation; [done..|]. intros x. by rewrite Hr, Hr'.
-  - intros Hnd2. apply NoDup_app. split; [done|]. split.
-    + intros x Hx Hx'. apply elem_of_list_In, filter_In in Hx' as [_ Hx'].
-      apply negb_true_iff, mem_str_false in Hx'. apply Hr in Hx. set_solver.
-    + apply NoDup_ListNoDup, NoDup_filter, NoDup_ListNoDup, Hnd2.
+  - intros Hnd2. apply NoDup_app. split; [done|]. split; [|by apply NoDup_filter].
+    intros x Hx Hx'. apply elem_of_list_filter in Hx' as [Hx' _]. apply Hr in Hx.
+    apply Hx'. rewrite elem_of_app. tauto.
 Qed.
 
 (* as a set: (t1 ∪ t2) \ seen *)
@@ -235,7 +258,7 @@ Lemma unique_tags_with_seen_elem seen t1 t2 r :
 Proof.
   destruct (unique_tags_with_seen_spec seen t1 t2) as (r' & -> & Hp & _). intros [= <-] x.
   rewrite Hp, elem_of_app. destruct (first_occ_spec t1 seen) as [_ ->].
-  rewrite elem_of_list_In, filter_In, <- elem_of_list_In, negb_true_iff, mem_str_false. set_solver.
+  rewrite elem_of_list_filter, elem_of_app. destruct (decide (x ∈ t1)); tauto.
 Qed.
 
 (* NewTagHandler: the static tags of a constructed handler have no duplicates *)
@@ -246,7 +269,7 @@ Proof.
   unfold new_tag_handler, unique_tags.
   destruct (unique_tags_with_seen_spec [] tags []) as (r & Hr & Hp & Hnd). rewrite Hr. cbn.
   eexists; split; [done|]. cbn. split; [done|]. split; [apply Hnd; constructor|].
-  intros x. rewrite (unique_tags_with_seen_elem _ _ _ _ Hr). set_solver.
+  intros x. rewrite (unique_tags_with_seen_elem _ _ _ _ Hr). lsolve.
 Qed.
 
 (* the loop really permutes: ["a";"a";"b";"c"] gives ["a";"c";"b"] *)
@@ -269,9 +292,12 @@ Section Filters.
 
   Lemma match_any_spec sml s : match_any sml s = true ↔ ∃ p, p ∈ sml ∧ sm_match p s = true.
   Proof.
-    induction sml as [|sm sml IH]; cbn; [set_solver|].
-    destruct (sm_match sm s) eqn:Hm; [set_solver|]. rewrite IH. split.
-    - intros (p & Hp & Hmp). exists p. set_solver.
+    induction sml as [|sm sml IH]; cbn [Tags.match_any].
+    { split; [done | intros (p & Hp & _); by apply elem_of_nil in Hp]. }
+    destruct (sm_match sm s) eqn:Hm.
+    { split; [intros _|done]. exists sm. split; [by left | done]. }
+    rewrite IH. clear IH. split.
+    - intros (p & Hp & Hmp). exists p. split; [by right | done].
     - intros (p & Hp & Hmp). apply elem_of_cons in Hp as [->|Hp]; [congruence|]. by exists p.
   Qed.
 
@@ -285,18 +311,20 @@ Section Filters.
   Lemma match_any_multiple_spec sml ts :
     match_any_multiple sml ts = true ↔ ∃ p t, p ∈ sml ∧ t ∈ ts ∧ sm_match p t = true.
   Proof.
-    induction ts as [|t ts IH]; cbn; [set_solver|].
+    induction ts as [|t ts IH]; cbn [Tags.match_any_multiple].
+    { split; [done | intros (p & t & _ & Ht & _); by apply elem_of_nil in Ht]. }
     destruct (match_any sml t) eqn:Hm.
-    - apply match_any_spec in Hm as (p & Hp & Hm). split; [intros _|done]. exists p, t. set_solver.
-    - rewrite IH. split.
-      + intros (p & t' & Hp & Ht & Hmp). exists p, t'. set_solver.
+    - apply match_any_spec in Hm as (p & Hp & Hm). split; [intros _|done]. exists p, t.
+      split; [done|]. split; [by left | done].
+    - rewrite IH. clear IH. split.
+      + intros (p & t' & Hp & Ht & Hmp). exists p, t'. split; [done|]. split; [by right | done].
       + intros (p & t' & Hp & Ht & Hmp). apply elem_of_cons in Ht as [->|Ht].
         * rewrite match_any_false in Hm. rewrite (Hm p Hp) in Hmp. done.
         * by exists p, t'.
   Qed.
 
   (* the three `continue` tests of the loop body *)
-  Definition sat_b (f : filter) (name : str) (tags : list str) : bool :=
+  Definition sat_b (f : Tags.filter) (name : str) (tags : list str) : bool :=
     negb ((0 <? length (f_match_metrics f))%nat && negb (match_any (f_match_metrics f) name))
     && negb (match_any (f_exclude_metrics f) name)
     && negb ((0 <? length (f_match_tags f))%nat && negb (match_any_multiple (f_match_tags f) tags)).
@@ -328,12 +356,18 @@ Section Filters.
   Proof.
     assert (Hin : ∀ df ts acc x, x ∈ fold_left (λ acc tag, if sm_match df tag then tag :: acc else acc) ts acc
                                ↔ x ∈ acc ∨ (x ∈ ts ∧ sm_match df x = true)).
-    { intros df ts. induction ts as [|t ts IH]; intros acc x; cbn; [set_solver|].
-      rewrite IH. destruct (sm_match df t) eqn:Hm; [set_solver|]. split; [set_solver|].
-      intros [?|[Ht ?]]; [by left|]. apply elem_of_cons in Ht as [->|Ht]; [congruence|]. right. done. }
-    unfold Tags.add_drops. induction drops as [|df drops IH]; intros acc x; cbn; [set_solver|].
-    rewrite IH, Hin. split.
-    - intros [[?|[? ?]]|(? & p & ? & ?)]; [by left | right; split; [done|]; exists df; set_solver | right; split; [done|]; exists p; set_solver].
+    { intros df ts. induction ts as [|t ts IH]; intros acc x; cbn [fold_left].
+      { split; [by left | intros [?|[H _]]; [done | by apply elem_of_nil in H]]. }
+      rewrite IH. clear IH. destruct (sm_match df t) eqn:Hm; rewrite !elem_of_cons; split.
+      - intros [[->|?]|[? ?]]; [right; split; [by left | done] | by left | right; split; [by right | done]].
+      - intros [?|[[->|?] ?]]; [left; by right | left; by left | right; done].
+      - intros [?|[? ?]]; [by left | right; split; [by right | done]].
+      - intros [?|[[->|?] ?]]; [by left | congruence | right; done]. }
+    unfold Tags.add_drops. induction drops as [|df drops IH]; intros acc x; cbn [fold_left].
+    { split; [by left | intros [?|(_ & p & Hp & _)]; [done | by apply elem_of_nil in Hp]]. }
+    rewrite IH, Hin. clear IH Hin. split.
+    - intros [[?|[? ?]]|(? & p & ? & ?)]; [by left | right; split; [done|]; exists df; split; [by left | done]
+                                          | right; split; [done|]; exists p; split; [by right | done]].
     - intros [?|(Ht & p & Hp & Hm)]; [by left; left|]. apply elem_of_cons in Hp as [->|Hp]; [left; right; done|].
       right. split; [done|]. by exists p.
   Qed.
@@ -341,7 +375,7 @@ Section Filters.
   Definition dropped_b fs name tags : bool := existsb (λ f, sat_b f name tags && f_drop_metric f) fs.
   Definition host_dropped_b fs name tags : bool := existsb (λ f, sat_b f name tags && f_drop_host f) fs.
 
-  Lemma existsb_filters (g : filter → bool) fs name tags :
+  Lemma existsb_filters (g : Tags.filter → bool) fs name tags :
     existsb (λ f, sat_b f name tags && g f) fs = true ↔ ∃ f, f ∈ fs ∧ satisfied f name tags ∧ g f = true.
   Proof.
     rewrite existsb_exists. split; intros (f & Hf & Hs).
@@ -371,15 +405,15 @@ Section Filters.
       + destruct (f_drop_metric f); [done|]. intros Hrun. apply IH in Hrun as [Hd Hsrc]. split.
         * intros x. rewrite Hd, add_drops_spec. apply sat_b_spec in Hs. split.
           -- intros [[?|(Ht & p & Hp & Hm)]|(Ht & f' & p & Hf & Hrest)]; [by left|right..].
-             ++ split; [done|]. exists f, p. set_solver.
-             ++ split; [done|]. exists f', p. set_solver.
+             ++ split; [done|]. exists f, p. lsolve.
+             ++ split; [done|]. exists f', p. lsolve.
           -- intros [?|(Ht & f' & p & Hf & Hsat & Hp & Hm)]; [by left; left|].
              apply elem_of_cons in Hf as [->|Hf]; [left; right; split; [done|]; by exists p|].
              right. split; [done|]. by exists f', p.
         * rewrite Hsrc. destruct (f_drop_host f); cbn [orb]; [by destruct (host_dropped_b _ _ _) | done].
       + intros Hrun. apply IH in Hrun as [Hd Hsrc]. split; [|done].
         intros x. rewrite Hd. split; (intros [?|(Ht & f' & p & Hf & Hsat & Hrest)]; [by left|right; split; [done|]]).
-        * exists f', p. set_solver.
+        * exists f', p. lsolve.
         * apply elem_of_cons in Hf as [->|Hf]; [|by exists f', p].
           apply sat_b_spec in Hsat. congruence.
   Qed.
@@ -412,7 +446,7 @@ Section Filters.
         apply run_filters_some in Hrun as [Hd ->].
         destruct (unique_tags_with_seen_spec d' tags (th_tags th)) as (r & Hr & _ & Hnd).
         rewrite Hr. cbn. exists r. split; [done|]. split; [|done].
-        intros x. rewrite (unique_tags_with_seen_elem _ _ _ _ Hr), Hd. set_solver.
+        intros x. rewrite (unique_tags_with_seen_elem _ _ _ _ Hr), Hd. lsolve.
   Qed.
 End Filters.
 
@@ -490,7 +524,7 @@ Lemma dispatch_event_spec th tags :
 Proof.
   unfold dispatch_event, unique_tags.
   destruct (unique_tags_with_seen_spec [] tags (th_tags th)) as (r & Hr & _ & Hnd).
-  exists r. split; [done|]. split; [|done]. intros x. rewrite (unique_tags_with_seen_elem _ _ _ _ Hr). set_solver.
+  exists r. split; [done|]. split; [|done]. intros x. rewrite (unique_tags_with_seen_elem _ _ _ _ Hr). lsolve.
 Qed.
 
 (* Non-vacuity: the filter of FILTERING.md (match-metrics 'global.*', drop-host, drop-tags
@@ -498,13 +532,12 @@ Qed.
    [host:a; host:b; host:a; x] from source h: host:a and host:b are removed, the static host:b
    is therefore not added, env:prod is, the source is cleared. *)
 Example filtering_md_example :
-  let s := map (λ n, N.of_nat n) in
   let re_ok := λ _ : str, true in
   let re_match := λ _ _ : str, false in
-  let glob := s [103;108;111;98;97;108;46]%nat in
-  let host := s [104;111;115;116;58]%nat in
-  ∃ th, build_handler re_ok [host ++ [98]; s [101;110;118]]%N
-          [MkRaw [glob ++ [c_star]] [] [] [host ++ [c_star]] false true] = Done th
-        ∧ unique_filter_add re_match th (glob ++ [120]%N) [104]%N [host ++ [97]; host ++ [98]; host ++ [97]; [120]]%N
-          = Done (Some ([], [[120]; s [101;110;118]]%N)).
+  let glob := [103;108;111;98;97;108;46]%N in
+  let host := [104;111;115;116;58]%N in
+  let env := [101;110;118]%N in
+  ∃ th, build_handler re_ok [host ++ [98%N]; env] [MkRaw [glob ++ [c_star]] [] [] [host ++ [c_star]] false true] = Done th
+        ∧ unique_filter_add re_match th (glob ++ [120%N]) [104%N] [host ++ [97%N]; host ++ [98%N]; host ++ [97%N]; [120%N]]
+          = Done (Some ([], [[120%N]; env])).
 Proof. cbn. eexists. split; vm_compute; reflexivity. Qed.
